@@ -38,6 +38,8 @@ class MZ:
 
     def add(self, labels, val, ttl, covers=0):
         sets = self.owner(labels)
+        if val.rdtype in (46, 24) and covers == 0:
+            covers = int(val.args[0])  # signature sets are kept per covered type
         k = (val.rdtype, covers)
         if k not in sets:
             sets[k] = [ttl, []]
